@@ -1255,7 +1255,7 @@ def _run_h5(spec, rec, d):
                                       f"{after.get(k, '<absent>')}"
                                       for k in sorted(set(before) | set(after))
                                       if before.get(k) != after.get(k)))
-                        exp.compare(rec, ds.config, "source-after-export")
+                        exp.compare(rec, ds.config, "source-after-export", skip=skip)
                     ds.export.hdf5(out, features=["deform"],
                                    filtered=(tool == "export_f"))
             elif tool == "split":
